@@ -16,7 +16,7 @@ func DescribeTunnel(address string, searchTimeout time.Duration) (*knxnet.Descri
 	if err != nil {
 		return nil, err
 	}
-	defer socket.Close()
+	defer closeAndDrain(socket)
 
 	addr := socket.LocalAddr()
 
@@ -42,5 +42,14 @@ func DescribeTunnel(address string, searchTimeout time.Duration) (*knxnet.Descri
 		case <-timeout:
 			return nil, nil
 		}
+	}
+}
+
+// closeAndDrain closes the socket and takes whatever its receiver still wants to hand over, so
+// that the receiver is not left behind blocked on a frame nobody will read.
+func closeAndDrain(socket knxnet.Socket) {
+	socket.Close()
+
+	for range socket.Inbound() {
 	}
 }
